@@ -321,7 +321,7 @@ pub fn run(started: Instant) -> i32 {
         progs = progs.into_iter().step_by(2).collect();
     }
     progs.extend(families::a1(Entropy::Noise).into_iter().step_by(if thorough { 1 } else { 4 }));
-    progs.extend(families::tree(3, if thorough { 6 } else { 5 }, 2, &[1, CHUNK, CHUNK + 1, BLOCK + 1], Entropy::Pattern));
+    progs.extend(families::tree(3, if thorough { 6 } else { 5 }, 2, &[0, 1, CHUNK, CHUNK + 1, BLOCK + 1], Entropy::Pattern));
     progs.extend(families::bases(Entropy::Constant));
     let mut cases = cases_for(progs, if thorough { &[0, 5, 11] } else { &[5] }, &[1, 3]);
     // many chunks: the chunk counter must be a big-endian u32, every byte of it. > 256 chunks (all layer
